@@ -5,11 +5,16 @@ set -u
 P=$1; K=$2; WT=/tmp/wt-$P; S=$WT/seed/$K; OUT=/verif/seeded/$P-$K
 export CARGO_TARGET_DIR=$WT/target CARGO_NET_OFFLINE=true
 mkdir -p $OUT; cp -r $S/patch.diff $S/README.md $OUT/ 2>/dev/null; rm -rf $OUT/demo; cp -r $S/demo $OUT/demo 2>/dev/null
+if [ -f /tmp/wtres-$P-$K.txt ]; then
+  # the worktree part was done beforehand (tools/confirm_wt.sh), e.g. when this runs in a private view of /repo
+  source /tmp/wtres-$P-$K.txt
+else
 cd $WT && git checkout -q -- . && git apply $S/patch.diff || { echo "patch does not apply"; exit 2; }
 TESTS=$(cargo test --workspace --no-fail-fast --offline 2>&1 | grep -E "^test result" | awk '{p+=$4; f+=$6} END {print p" passed "f" failed"}')
 ( cd $S/demo && bash run.sh >/tmp/demo-$P-$K-with.log 2>&1 ); DW=$?
 git checkout -q -- .
 ( cd $S/demo && bash run.sh >/tmp/demo-$P-$K-without.log 2>&1 ); DWO=$?
+fi
 # our check against the change, in /repo
 unset CARGO_TARGET_DIR
 # a seed made before a later fix commit may need its patch carried over to /repo's HEAD (kept next to the original)
